@@ -424,6 +424,12 @@ theorem authH_good (store : Bytes → List Msg) (s : St) (h : Inv s) (hp : s.pha
   have same : ∀ r, Good (AuthPost store s) (.ok s r []) := fun r => ⟨h, rfl, Or.inl ⟨hp, rfl, rfl, rfl⟩⟩
   cases v <;> simp only [authH]
   case quit => exact ⟨h, rfl, Or.inr (Or.inl ⟨rfl, rfl⟩)⟩
+  case stls =>
+    split
+    · exact same _
+    · split
+      · exact same _
+      · exact ⟨h, rfl, Or.inl ⟨hp, rfl, rfl, rfl⟩⟩
   case user =>
     match args with
     | [] => rw [if_neg (by simp)]; exact same _
